@@ -165,3 +165,12 @@ Definition enum_outcome_f (fixed : bool) (l : list (option Z)) : result Z :=
 (* `int g = a op b;` with int literals *)
 Definition binop_outcome_f (fixed : bool) (op : string) (a b : Z) : result Z :=
   _ <- global_init_f fixed ctx64 TInt (BinOp (NumLit a TInt) op (NumLit b TInt) TInt) ;; Ok 0.
+
+(* ---- CContext.pack with fixes/C28-pack-integer-conversion.diff: the integer formats first reduce the value
+        modulo 2^N (eval.c_wrap), so struct.pack cannot raise struct.error any more ---- *)
+Definition pack_w (c : cctx) (t : ity) (v : Z) : result (list Z) :=
+  w <- convert_m c t v ;; pack c t w.
+
+(* gen_global_initialize_expression on the repaired tree: guards in eval_binop + wrapping pack *)
+Definition global_init_w (c : cctx) (t : ity) (e : cexpr) : result (list Z) :=
+  v <- eval_expr_f true c e ;; pack_w c t v.
